@@ -18,6 +18,7 @@
 package trace
 
 import (
+	"bytes"
 	"context"
 	"fmt"
 	"maps"
@@ -667,6 +668,12 @@ func mustDecodeTagValueAndArray(valueType pbv1.ValueType, value []byte, valueArr
 			next int
 			err  error
 		)
+		// UnmarshalVarArray decodes an escaped entry in place. The value may be a dictionary entry
+		// shared by several rows of the block, so an array that carries an escape is decoded on a copy;
+		// escape-free arrays are never written to.
+		if bytes.IndexByte(value, encoding.Escape) >= 0 {
+			value = append([]byte(nil), value...)
+		}
 		for idx := 0; idx < len(value); idx = next {
 			end, next, err = encoding.UnmarshalVarArray(value, idx)
 			if err != nil {
